@@ -649,9 +649,11 @@ def run(ctx):
             d = json.load(f)
         for i, c in enumerate(d['cases'] if 'cases' in d else [d]):
             cases.append((f'corpus:{os.path.basename(p)}:{i}', c))
-    if getattr(ctx, 'replay', None):
-        with open(ctx.replay) as f:
-            cases = [('replay', json.load(f)['case'])]
+    replaying = bool(getattr(ctx, 'replay', None))
+    if replaying:       # re-execute exactly the recorded case (same name, so that the violation record is identical)
+        with open(ctx.replay if os.path.isabs(ctx.replay) else os.path.join(vlib.ROOT, ctx.replay)) as f:
+            rc = json.load(f)['case']
+        cases = [(rc['name'], rc['case'])] if isinstance(rc, dict) and 'case' in rc else []
     else:
         ngen = 1200 if ctx.quick() else 8000
         for i in range(ngen):
@@ -661,7 +663,7 @@ def run(ctx):
     for name, case in cases:
         states = None
         for attempt in range(20):
-            if name.startswith('gen:'):
+            if name.startswith('gen:') and not replaying:
                 case = gen_case(ctx.rng, stats)
             try:
                 states, sens = run_impl(pym, classes, case)
@@ -676,7 +678,7 @@ def run(ctx):
                 break
             ctx.count('discarded:magnitude')
             states = None
-            if not name.startswith('gen:'):
+            if not name.startswith('gen:') or replaying:
                 break
         if states is None:
             continue
